@@ -336,7 +336,7 @@ int main(int argc, char** argv) {
                 for (auto t : types) {
                     std::vector<size_t> ls = (t == MESS) ? std::vector<size_t>{0} : lengthsFor(t, tier, rng);
                     for (size_t n : ls) {
-                        int esz = (t == C0NN) ? rng.pick(std::vector<int>{ 4, 8, 9, 10, 17, 40, 77 }) : 0;
+                        int esz = (t == C0NN) ? rng.pick(std::vector<int>{ 4, 8, 9, 10, 17, 40, 77, 78, 99, 128 }) : 0;
                         // a file of two arrays so that the second one depends on the seek arithmetic
                         std::vector<TArr> arrs = { makeArr(rng, t, n, esz), makeArr(rng, INTE, 3, 0) };
                         if (formatted) {
